@@ -36,7 +36,9 @@ class TLCResult:
 
 
 def _java(props, args, timeout, env=None, cwd=None):
-    cmd = ["java", "-XX:+UseParallelGC", "-Xss16m", "-DTLA-Library=" + LIBPATH]
+    jtmp = os.path.join(OUT, "jtmp")
+    os.makedirs(jtmp, exist_ok=True)
+    cmd = ["java", "-XX:+UseParallelGC", "-Xss16m", "-Djava.io.tmpdir=" + jtmp, "-DTLA-Library=" + LIBPATH]
     for k, v in (props or {}).items():
         cmd.append("-D%s=%s" % (k, v))
     cmd += ["-cp", JAR] + args
